@@ -1,0 +1,24 @@
+//go:build verif
+
+package protocol
+
+// Contracts for the deductive verifier in /verif (comment-only file, build tag verif).
+
+//@ func Protocol.Init
+//@   modifies global(ext)
+//@   emits protoInit
+//@   trusted interface method (connection_init / connection_ack handshake on the upstream connection)
+//@ func Protocol.Subscribe
+//@   modifies global(ext)
+//@   emits protoSubscribe
+//@   trusted interface method (writes the subscribe message)
+//@ func Protocol.Unsubscribe
+//@   modifies global(ext)
+//@   trusted interface method (writes the complete/stop message)
+//@ func Protocol.Read
+//@   modifies global(ext)
+//@   fresh
+//@   trusted interface method (blocks for the next upstream message and decodes it into a fresh WireMessage)
+//@ func WireMessage.IntoClientMessage
+//@   fresh
+//@   trusted converts the wire message into a fresh client message
